@@ -110,6 +110,10 @@ def group_cfgs(seed):
         {"momentum": 0.0, "wd": 0.0},
         {"freq": 2, "start": 2},
         {"lr": 0.25, "betas": [0.25, 1.0], "wd": 0.25, "momentum": 0.25},
+        {"nesterov": "flip"},
+        {"decoupled": "flip"},
+        {"bias_corr": "flip"},
+        {"dampening": 0.25, "nesterov": "flip"},
     ]
     for top in (
         dict(betas=[0.5, 0.5], beta3=0.25, momentum=0.5, wd=0.5, graft=["adam", 0.5, 1e-1], start=2),
@@ -118,7 +122,9 @@ def group_cfgs(seed):
     ):
         for ov in overs:
             for split in ([[0], [1, 2]], [[0, 2], [1]]):
-                out.append(seq.cfg_with(seed=seed, groups=[{"params": split[0], "over": {}}, {"params": split[1], "over": ov}], **top))
+                base = seq.cfg_with(seed=seed, **top)
+                ov2 = {k: ((not base[k]) if v == "flip" else v) for k, v in ov.items()}
+                out.append(seq.cfg_with(seed=seed, groups=[{"params": split[0], "over": {}}, {"params": split[1], "over": ov2}], **dict(top, wd=top.get("wd", 0.5))))
     return out
 
 
